@@ -168,3 +168,13 @@ contract(B + "close.<connectingFailed>")(type('_', (), dict(
     inv_exempt_at_entry=["connector-live"],
     requires=["self.connector is not None", "called(self.connector)", "failed(self.connector)", "self.proto is None",
               "self._dDown is not None", "not called(self._dDown)"])))
+
+
+# ---- C06: a frame announcing an impossible length terminates the connection --------------------------------------------
+# Int32StringReceiver (Twisted, trusted) reads the 4-byte prefix as an unsigned number and calls lengthLimitExceeded() iff it
+# exceeds MAX_LENGTH; Kafka sizes are signed int32, so every prefix >= 2^31 is impossible and every smaller one legal
+contract("afkak._protocol._BaseKafkaProtocol")(type('_', (), dict(
+    class_constants=True, props=["C06"],
+    ensures={"impossible-lengths-are-exactly-those-beyond-int32[C06]": "MAX_LENGTH == 2147483647"},
+    assumes=["twisted.protocols.basic.Int32StringReceiver drops the connection (lengthLimitExceeded) exactly when the unsigned "
+             "length prefix exceeds MAX_LENGTH, and otherwise delivers each complete frame once, whatever the chunking"])))
